@@ -24,6 +24,7 @@ Record cfg := {
   c_apr4 : bool; c_aps4 : bool;             (* add-path receive / send (not BestOnly) IPv4 *)
   c_apr6 : bool; c_aps6 : bool;
   c_mp4 : bool;         (* AdvertiseIPv4MultiProtocol *)
+  c_nx4 : bool;         (* IPv4.NextHopExtended *)
   c_role : N;           (* PeerConfig.PeerRole: 0 off, 1 provider, 2 RS, 3 RS-client, 4 customer, 5 peer *)
   c_strict : bool;
   c_rr : bool; c_cluster : N;               (* route reflector client, cluster id *)
@@ -54,6 +55,7 @@ Inductive cap :=
 | CapMP (afi safi : N)
 | CapAddPath (afi safi sr : N)      (* one tuple; sr: 1 receive, 2 send, 3 both *)
 | CapRole (r : N)
+| CapExtNH (afi safi nhafi : N)     (* extended next hop encoding tuple *)
 | CapUnknown (code : N).
 
 Record open_msg := { o_ver : N; o_asn : N; o_hold : N; o_id : N; o_caps : list cap }.
@@ -64,6 +66,7 @@ Inductive msg :=
 | MKeepalive
 | MOpen (o : open_msg)
 | MUpdate (ann wd : list N)
+| MPoison (rid : N) (by_asn : bool) (v : N)   (* UPDATE announcing route rid with v in its AS_PATH (by_asn) or CLUSTER_LIST *)
 | MNotification (code sub : N)
 | MHeader (marker_ok : bool) (len typ avail : N)
 | MTrunc (n : N)                    (* n < 19 octets of a header *)
@@ -124,6 +127,7 @@ Inductive decoded :=
 | DKeepalive
 | DOpen (o : open_msg)
 | DUpdate (ann wd : list N)
+| DPoison (rid : N) (by_asn : bool) (v : N)
 | DNotification (code sub : N)
 | DErr (notif : option (N * N)).     (* decode error; Some = the error is a BGPError with these codes *)
 
@@ -133,6 +137,7 @@ Definition decode (m : msg) : decoded :=
   | MKeepalive => DKeepalive
   | MOpen o => match validate_open o with Some e => DErr (Some e) | None => DOpen o end
   | MUpdate ann wd => DUpdate ann wd
+  | MPoison r b v => DPoison r b v
   | MNotification c s => if notification_valid c s then DNotification c s else DErr None
   | MHeader mk len typ _ =>
       match decode_header mk len typ with
@@ -228,6 +233,7 @@ Inductive out :=
 | Init                     (* establishedState.init *)
 | Uninit                   (* establishedState.uninit *)
 | ProcessedUpdate (ann wd : list N)
+| ProcessedPoison (rid : N) (by_asn : bool) (v : N)
 | ReadErr                  (* recvMsg returned an error (nobody listens on msgRecvFailCh) *)
 | Crash.                   (* a Go panic: slice out of range in recvMsg, nil connection *)
 
@@ -299,6 +305,10 @@ Definition set_role (n : neg) (r : N) : neg :=
 Definition cfg_recv (c : cfg) (afi : N) : bool := if afi =? 1 then c_apr4 c else c_apr6 c.
 Definition cfg_send (c : cfg) (afi : N) : bool := if afi =? 1 then c_aps4 c else c_aps6 c.
 
+(* peer.ipv4MultiProtocolAdvertised as newPeer sets it: inside `if c.IPv4 != nil`, by the NextHopExtended branch
+   and by the AdvertiseIPv4MultiProtocol branch *)
+Definition mp4_flag (c : cfg) : bool := c_v4 c && (c_nx4 c || c_mp4 c).
+
 (* state of the capability loop: negotiated options, peer AS as resolved so far, "multiple roles" flag *)
 Record capst := { k_neg : neg; k_asn : N; k_multi : bool }.
 
@@ -316,13 +326,14 @@ Definition process_cap (c : cfg) (k : capst) (x : cap) : capst :=
       {| k_neg := set_asn4 (k_neg k); k_asn := if k_asn k =? 23456 then a else k_asn k; k_multi := k_multi k |}
   | CapMP afi safi =>
       if negb (safi =? 1) then k
-      else if (afi =? 1) && negb (c_mp4 c) then k
+      else if (afi =? 1) && negb (mp4_flag c) then k
       else if fam_cfg c afi then {| k_neg := set_mp (k_neg k) afi; k_asn := k_asn k; k_multi := k_multi k |}
       else k
   | CapRole r =>
       if negb (role_enabled c) then k
       else {| k_neg := set_role (k_neg k) r; k_asn := k_asn k;
               k_multi := k_multi k || (n_roleadv (k_neg k) && negb (n_roleremote (k_neg k) =? r)) |}
+  | CapExtNH _ _ _ => k
   | CapUnknown _ => k
   end.
 
@@ -366,6 +377,7 @@ Definition sent_open (c : cfg) : open_msg :=
        (if c_v4 c then add_path_cap (c_apr4 c) (c_aps4 c) 1 else []) ++
        (if c_v6 c then add_path_cap (c_apr6 c) (c_aps6 c) 2 else []) ++
        [CapASN4 (c_las c)] ++
+       (if c_v4 c && c_nx4 c then [CapExtNH 1 1 2; CapMP 1 1] else []) ++
        (if c_v4 c && c_mp4 c then [CapMP 1 1] else []) ++
        (if c_v6 c then [CapMP 2 1] else []) ++
        (if ebgp c && role_enabled c then [CapRole (wire_role (c_role c))] else []) |}.
@@ -515,6 +527,7 @@ Definition handle (c : cfg) (s : sess) (e : ev) : sess * list out :=
           | DNotification _ _ =>
               let (s1, o1) := uninit s in close_bump_idle s1 o1
           | DUpdate ann wd => (set_upd s (s_upd s + 1), [ProcessedUpdate ann wd])
+          | DPoison r b v => (set_upd s (s_upd s + 1), [ProcessedPoison r b v])
           | DKeepalive => (s, [])
           | DOpen _ =>
               let (s1, o1) := uninit s in close_bump_idle s1 (wr s (SentNotification 5 0) ++ o1)
@@ -651,6 +664,20 @@ Definition apply_update (c : cfg) (sid : N) (ann wd : list N) (y : sys) : sys :=
   if negb (c_v4 c) then y
   else fold_left (apply_announce c sid) ann (fold_left (apply_withdraw sid) wd y).
 
+(* an announcement that loop detection must hide while v is a contributing ASN (by_asn) / cluster id of
+   the VRF (adjRIBIn.validatePath: ourASNsInPath, cluster list); hidden paths stay in the Adj-RIB-In only *)
+Definition apply_poison (c : cfg) (sid rid : N) (by_asn : bool) (v : N) (y : sys) : sys :=
+  if negb (c_v4 c) then y else
+  let hidden := if by_asn then 0 <? rc_count (y_asn y) v else 0 <? rc_count (y_cid y) v in
+  {| y_sess := y_sess y;
+     y_rib := match c_imp c, hidden with
+              | ImpAccept, false => rib_without (y_rib y) sid rid ++ [(sid, rid, false)]
+              | ImpRewrite, false => rib_without (y_rib y) sid rid ++ [(sid, rid, true)]
+              | _, _ => rib_without (y_rib y) sid rid
+              end;
+     y_adjin := alist_set (y_adjin y) sid (ids_without (alist_get (y_adjin y) sid) rid ++ [rid]);
+     y_asn := y_asn y; y_cid := y_cid y; y_cl4 := y_cl4 y; y_cl6 := y_cl6 y |}.
+
 (* RIB-level effect of the outputs of one FSM step, in order.  att tracks ribsInitialized while folding. *)
 Fixpoint apply_outs (c : cfg) (sid : N) (att : bool) (os : list out) (y : sys) : sys :=
   match os with
@@ -658,6 +685,7 @@ Fixpoint apply_outs (c : cfg) (sid : N) (att : bool) (os : list out) (y : sys) :
   | Init :: r => apply_outs c sid true r (apply_init c sid y)
   | Uninit :: r => apply_outs c sid false r (apply_uninit c sid att y)
   | ProcessedUpdate ann wd :: r => apply_outs c sid att r (apply_update c sid ann wd y)
+  | ProcessedPoison rid b v :: r => apply_outs c sid att r (apply_poison c sid rid b v y)
   | _ :: r => apply_outs c sid att r y
   end.
 
